@@ -31,6 +31,9 @@ BODIES = {
     "preprocess_plain": "while true do frame:preprocess('plain') end",
     "preprocess_invoke": "while true do frame:preprocess('{{#invoke:c07aux|ok}}') end",
     "after_nested_invoke": "frame:preprocess('{{#invoke:c07aux|ok}}') while true do end",
+    "nested_in_parserfn": "frame:preprocess('{{#if:1|{{#invoke:c07aux|slow}}}}') return 'after'",
+    "loop_nested_in_parserfn": "while true do frame:preprocess('{{#if:1|{{#invoke:c07aux|ok}}}}') end",
+    "nested_in_template_arg": "frame:expandTemplate{title='c07t', args={'{{#invoke:c07aux|slow}}'}} while true do end",
     "nested_inner_loop": "frame:preprocess('{{#invoke:c07aux|slow}}') return 'after'",
     "tail_recursion": "local function f() return f() end f()",
     "mutual_recursion": "local a, b; a = function() return b() end; b = function() return a() end; a()",
@@ -99,6 +102,7 @@ def work(payload, skip, report):
     ctx = new_ctx(lua=True)
     ctx.add_page("Module:c07aux", 828, AUX, model="Scribunto")
     ctx.add_page("Module:c07prog", 828, module_text(body, wrapper, position), model="Scribunto")
+    ctx.add_page("Template:c07t", 10, "[{{#if:1|{{{1|}}}}}]")
     ctx.start_page("Tt")
     before = list(ctx.expand_stack)
     t0 = time.time()
@@ -145,7 +149,8 @@ def main(run):
             chunks.append((b, w, "function", ("benign",)))
         for b, w in QUICK[:6]:
             chunks.append((b, w, "toplevel", ("benign", "raising")))
-        for b in ("nested_inner_loop", "preprocess_invoke", "after_nested_invoke"):
+        for b in ("nested_inner_loop", "preprocess_invoke", "after_nested_invoke", "nested_in_parserfn", "loop_nested_in_parserfn",
+                  "nested_in_template_arg"):
             chunks.append((b, "none", "function", ("guarded", "timing_out", "benign")))
             chunks.append((b, "pcall", "function", ("timing_out", "guarded")))
     else:
